@@ -363,7 +363,7 @@ func (g *Gen) genContext(p *Prog, steps int) {
 			p.Exec(fmt.Sprintf("csetmode %d", int(g.mode())))
 		default:
 			y := pick()
-			p.Exec(fmt.Sprintf("cnil %d %d", recv(y), y))
+			p.Exec(fmt.Sprintf("cnil %d %d %s", recv(y), y, []string{"add", "sub", "mul", "quo", "fma", "sqrt"}[g.intn(6)]))
 		}
 	}
 	p.Exec("cerr")
@@ -494,6 +494,20 @@ func (g *Gen) genText(p *Prog) {
 		if prec > 400 {
 			prec = 0
 		}
+	}
+	if g.chance(0.12) {
+		// |x| is exactly half (or 1.5, 2.5 …) of the quantum 10^-prec: ties at and above the leading digit
+		d := []string{"5", "5", "15", "25", "35", "45", "5000000000000000000001", "4999999999999999999999", "05", "95"}[g.intn(10)]
+		k := g.intn(30)
+		x := Val{Form: 1, Neg: g.intn(2) == 0, Digits: trimZeros(strings.TrimLeft(d, "0")), Exp: int64(len(strings.TrimLeft(d, "0"))-len(d)) + int64(len(d)) - 1 - int64(k), Mode: g.mode()}
+		if g.chance(0.6) {
+			x.Mode = decimal.ToNearestEven
+		}
+		x.Prec = uint(len(x.Digits)) + uint(g.intn(3))
+		xi = p.Load(x)
+		// value = d × 10^(-k-1) (as an integer d): %.{k}f rounds at the digit before d's last digit
+		prec = k
+		f = 'f'
 	}
 	p.Exec(fmt.Sprintf("text %d %c %d", xi, f, prec))
 	if g.chance(0.5) {
